@@ -2,7 +2,7 @@
 constructor / rename with symbolic operands, and the obligations checked on every path."""
 from __future__ import annotations
 
-from typing import Any, Callable, Dict, List, Optional, Tuple
+from typing import Any, Callable, Dict, List, Optional, Set, Tuple
 
 from .loader import AnalysisError, Program, norm
 from .sets import ONES, c_and, c_not, c_or, c_show, neg, satisfiable
@@ -268,6 +268,34 @@ def retention_check(p: Path, which: str) -> List[dict]:
     for _s, m in R.touch_atoms.items():
         notouch &= neg(m)
     out = []
+    # "interface-level" is relative to the result's interface: no variable eliminated while computing the result's
+    # guarantees may belong to it (else a term over the interface is rewritten or dropped as if it were internal)
+    iv, ov = res.fields.get("inputvars"), res.fields.get("outputvars")
+    if isinstance(iv, VS) and isinstance(ov, VS):
+        anc: Set[int] = set()
+        work = [g_res.n]
+        while work:
+            k = work.pop()
+            if k is None or k in anc:
+                continue
+            anc.add(k)
+            nd = p.prov.nodes[k]
+            if nd[0] in ("union", "inter"):
+                work += [nd[1], nd[2]]
+            elif nd[0] in ("diff", "copy", "simp", "with_vars", "relax", "refine"):
+                work.append(nd[1])
+        for ev in p.events:
+            if ev.get("kind") in ("relax", "refine") and ev.get("outcome") == "ok" and ev.get("result") in anc and ev.get("S_tt") is not None:
+                inside = ev["S_tt"] & (iv.tt | ov.tt) & p.allowed
+                bad = bool(inside) and satisfiable(list(p.conds) + [("E", inside)], p.allowed)
+                out.append(
+                    {
+                        "class": "no variable of the result's interface is eliminated from the guarantees",
+                        "ok": not bad,
+                        "lost": "variables %s are in the result's interface and in the eliminated set" % p.atoms.describe(inside, p.allowed) if bad else "",
+                        "g_res": p.prov.show(g_res.n, 6),
+                    }
+                )
     g1, g2, a1, a2 = (at.masks["t in %s" % x] for x in ("G1", "G2", "A1", "A2"))
     # classes are over the four leaf atoms; check each of the 3 guarantee-membership classes separately
     classes = [
